@@ -24,10 +24,13 @@ C10WorldsMCQuick == {x \in C10WorldsQuick : \A f \in FileSet : x.fs0[f] # "gen"}
 \* C09: every invalid-input class x every level it can be written at x first/last package x alone/among valid
 \* ones, plus the fault-free world
 C09Worlds == {[fs0 |-> AllAbsent, force |-> NoForce, fault |-> NoFault, missing |-> FALSE]} \cup
-             UNION {{[fs0 |-> AllAbsent, force |-> NoForce, fault |-> InputFault(c, l, p, x), missing |-> FALSE] :
+             UNION {{[fs0 |-> AllAbsent, force |-> NoForce, fault |-> InputFault(c, l, p, x, "-"), missing |-> FALSE] :
                        l \in ClassLevels(c), p \in {"first", "last"}, x \in {"alone", "among"}} : c \in InputClasses}
+             \* COMBINATIONS: a package that fails to load which also has an unusual-but-valid trait
+             \cup {[fs0 |-> AllAbsent, force |-> NoForce, fault |-> InputFault(c, "pkg", "first", x, ft), missing |-> FALSE] :
+                       c \in PkgErrClasses, x \in {"alone", "among"}, ft \in PkgFeatures}
 \* C09 x C10 (thorough tier): an invalid input while output paths are occupied, with and without force-file-write
-C09WorldsOccupied == UNION {{[fs0 |-> a, force |-> b, fault |-> InputFault(c, l, p, "among"), missing |-> FALSE] :
+C09WorldsOccupied == UNION {{[fs0 |-> a, force |-> b, fault |-> InputFault(c, l, p, "among", "-"), missing |-> FALSE] :
                        l \in ClassLevels(c), p \in {"first", "last"},
                        a \in [FileSet -> {"absent", "user"}], b \in {NoForce, AllForce}} : c \in InputClasses}
 C09WorldsThorough == C09Worlds \cup C09WorldsOccupied
